@@ -10,12 +10,12 @@ CONSTANTS
   D_RenameAfterFailedStep = FALSE
   D_NoFsync = FALSE
   M_ZeroOffsetsWritten = TRUE
-  M_SyncBeforeRename = TRUE
+  M_SyncBeforeRename = FALSE
   M_TmpStartsEmpty = TRUE
   CLen <- TokLen
   MidSaveCommits = TRUE
   CrashAction = TRUE
-  DoExport = TRUE
+  DoExport = FALSE
   MaxIno = 4
-INVARIANTS TypeOK AlwaysLoadable NeverAhead DurableBeforeReplace FailedStepKeepsOld Export
+INVARIANTS TypeOK FailedStepKeepsOld
 CHECK_DEADLOCK FALSE
